@@ -60,3 +60,27 @@ Definition g_set_param (c : gcircuit) (i : nat) (x : Z) : option gcircuit := set
 Definition g_set_params (c : gcircuit) (v : list Z) : option gcircuit := set_params GI Z c v.
 Definition g_freeze_param (c : gcircuit) (i : nat) : option gcircuit := freeze_param GI Z c i.
 Definition g_mk_circuit (r : list N) (ops : list (nat * gop)) : gcircuit := mk_circuit GI Z r ops.
+
+(* ------------------------------------------------------------------ a ring with a non-trivial derivation,
+   used only for the non-vacuity example of the gradient theorem: dual numbers Z[e]/(e^2),
+   conjugation e -> -e, derivation D(a + b e) = b e. *)
+Definition DU : Type := (Z * Z)%type.
+Definition du0 : DU := (0, 0)%Z.
+Definition du1 : DU := (1, 0)%Z.
+Definition du_add (a b : DU) : DU := (fst a + fst b, snd a + snd b)%Z.
+Definition du_mul (a b : DU) : DU := (fst a * fst b, fst a * snd b + snd a * fst b)%Z.
+Definition du_opp (a : DU) : DU := (- fst a, - snd a)%Z.
+Definition du_sub (a b : DU) : DU := du_add a (du_opp b).
+Definition du_conj (a : DU) : DU := (fst a, - snd a)%Z.
+Definition du_D (a : DU) : DU := (0, snd a)%Z.
+
+(* the one-qubit "phase" gate diag(1 + e, 1), its derivative diag(e, 0), as a one-operation circuit *)
+Definition du_gate : nd DU :=
+  mk_nd [2; 2]%N (fun i => match i with
+                          | [0; 0]%N => (1, 1)%Z
+                          | [1; 1]%N => (1, 0)%Z
+                          | _ => du0 end).
+Definition du_dgate : nd DU :=
+  mk_nd [2; 2]%N (fun i => match i with [0; 0]%N => (0, 1)%Z | _ => du0 end).
+Definition du_circuit : circuit DU unit :=
+  mk_circuit DU unit [2%N] [(0%nat, mk_op DU unit [0%nat] 1 [tt] (fun _ => du_gate) (fun _ => [du_dgate]))].
